@@ -8,8 +8,9 @@ MON = ["over-admit", "starved", "zero-rate", "policy"]
 COMP = V.Component("qos", monitors=MON)
 COMPS = [COMP]
 LEVEL = ("Upper bound (admitted <= burst + rate*window for every arrival sequence, window and starting bucket), "
-         "rate-0-is-unlimited, the exact accounting of the lower bound and policy enforcement (SetSubscriberQoS's "
-         "bytes are the bucket the TC programs judge by) are theorems over a Lean model of token_bucket_check in "
+         "rate-0-is-unlimited, the exact accounting of the lower bound and policy enforcement (the bytes SetSubscriberQoS / "
+         "SetSubscriberPolicy write — also after a policy was REdefined and re-applied by name — are the bucket the TC "
+         "programs judge by; a removed policy is not enforced) are theorems over a Lean model of token_bucket_check in "
          "exact UInt64 arithmetic, of both TC programs' lookup and of the manager as a writer of map bytes. The "
          "model is tied to the code by differential execution: the real qos.Manager writes into REAL kernel maps, "
          "the raw bytes are handed to bpf/qos_ratelimit.c compiled natively (clang, ASan+UBSan, scripted "
@@ -22,6 +23,10 @@ ASSUME = [
     "kernel map semantics and bpf_ktime_get_ns are modelled as a byte table and a scripted monotonic clock (cshim)",
     "one CPU: concurrent updates of one bucket from several CPUs (the C code takes no lock) are not modelled",
     "frames are untagged Ethernet II; skb->len is an input (non-linear skbs: len may exceed the linear part)",
+    "control plane driven: PolicyManager.AddPolicy (incl. redefinition) / RemovePolicy, Manager.SetSubscriberPolicy, "
+    "SetSubscriberQoS, RemoveSubscriberQoS, GetSubscriberCount in arbitrary orders; LoadDefaultPolicies (a static table) is not",
+    "the upload direction has no configurable burst in the manager's API: its expected burst is the default rule "
+    "(1 s of traffic, min 64KB, cap 10MB); the download burst is the policy's, or that rule when 0",
     "backlogged = every gap earns at most the previously offered packet and cannot overflow the bucket "
     "(Bng.TokenBucket.Backlogged, decidable from the arrival sequence)",
 ]
